@@ -3,6 +3,9 @@
 package main
 
 import (
+	"crypto/aes"
+	"crypto/cipher"
+	"encoding/hex"
 	"bytes"
 	"encoding/base64"
 	"fmt"
@@ -142,6 +145,29 @@ func vfC02(w *vfWorld) {
 		for _, k := range w.redis.SessionKeys() {
 			v, _ := w.redis.Get(k)
 			leak("stored session value", []byte(v))
+			// an observer of the store sees key names and values, never a cookie: nothing in the key name may open the value
+			var cands [][]byte
+			for _, f := range strings.FieldsFunc(k, func(r rune) bool { return r == '-' || r == ':' || r == '.' }) {
+				cands = append(cands, []byte(f))
+				if d, err := hex.DecodeString(f); err == nil {
+					cands = append(cands, d)
+				}
+				if d, err := base64.RawURLEncoding.DecodeString(f); err == nil {
+					cands = append(cands, d)
+				}
+			}
+			for _, c := range cands {
+				if len(c) != 16 && len(c) != 24 && len(c) != 32 || len(v) < 13 {
+					continue
+				}
+				if blk, err := aes.NewCipher(c); err == nil {
+					if g, err := cipher.NewGCM(blk); err == nil {
+						if pt, err := g.Open(nil, []byte(v[:12]), []byte(v[12:]), nil); err == nil {
+							w.violate("C02", "plaintext-in-credential", "store-entry-opens-with-its-own-key-name", "the stored session %s decrypts (AES-GCM) with key material contained in its own key name: %d plaintext bytes recovered", w.sym("rkey", k), len(pt))
+						}
+					}
+				}
+			}
 		}
 	}
 	issued := map[string]string{alice.exp: "alice", bob.exp: "bob"}
@@ -395,6 +421,55 @@ func vfC02(w *vfWorld) {
 		set(ka, va)
 		// ticket cookie naming bob's key with alice's secret
 		judge("restored", "", vfPairsHdr(alice.pairs), alice.exp)
+	}
+	// ---- 8. an altered / self-made ticket cookie riding on a request that SAVES a session (the login callback of
+	// another user): the proxy must not adopt the key and secret such a cookie dictates ----
+	if w.redis != nil {
+		av := alice.pairs[0][1]
+		ap := strings.Split(av, "|")
+		ka := vfTicketKeyOf(av)
+		va, _ := w.redis.Get(ka)
+		if len(ap) == 3 && ka != "" {
+			raw, _ := base64.URLEncoding.DecodeString(ap[0])
+			mine := "v2." + base64.RawURLEncoding.EncodeToString([]byte("_oauth2_proxy-attacker-chosen-ticket-id")) + "." + base64.RawURLEncoding.EncodeToString([]byte("0123456789abcdef"))
+			var forged [][2]string // label, cookie value
+			forged = append(forged, [2]string{"signature removed", ap[0] + "|" + ap[1] + "|"})
+			forged = append(forged, [2]string{"signature character changed", av[:len(av)-5] + string(repl(av[len(av)-5])[0]) + av[len(av)-4:]})
+			if v, err := encryption.SignedValue("ffffffffffffffffffffffffffffffff", cfg.CookieName, raw, time.Now()); err == nil {
+				forged = append(forged, [2]string{"re-signed with another secret", v})
+			}
+			if v, err := encryption.SignedValue("ffffffffffffffffffffffffffffffff", cfg.CookieName, []byte(mine), time.Now()); err == nil {
+				forged = append(forged, [2]string{"self-made ticket signed with another secret", v})
+			}
+			forged = append(forged, [2]string{"self-made ticket unsigned", base64.URLEncoding.EncodeToString([]byte(mine)) + "|" + ap[1] + "|"})
+			for i, f := range forged {
+				mb := w.NewBrowser(fmt.Sprintf("Bm%d", i), "192.0.2.9:1")
+				lg, _ := mb.StartLogin(rep, pp+"/start?rd=%2Fapp", "carol")
+				if lg == nil {
+					continue
+				}
+				_, code := w.idp.Authorize(lg.AuthURL, "carol")
+				hdr := lg.CSRFName + "=" + lg.CSRFValue + "; " + cfg.CookieName + "=" + f[1]
+				r := mb.Do(rep, &vfReq{Method: "GET", Target: pp + "/callback?code=" + url.QueryEscape(code) + "&state=" + url.QueryEscape(lg.State), NoJar: true, CookieHdr: &hdr})
+				cs.Presented++
+				cs.ByClass["altered-ticket-on-save"]++
+				fk := vfTicketKeyOf(f[1])
+				for _, c := range r.SetCookies {
+					if c.Name == cfg.CookieName && c.Value != "" && c.MaxAge >= 0 {
+						if nk := vfTicketKeyOf(c.Value); nk != "" && nk == fk {
+							w.violate("C02", "altered-ticket-adopted-on-save", f[0], "a login callback carrying a ticket cookie with %s stored the new session under the key that cookie dictates (%s) and signed a cookie for it", f[0], w.sym("rkey", nk))
+						}
+					}
+				}
+				if now, _ := w.redis.Get(ka); now != va {
+					w.violate("C02", "altered-ticket-adopted-on-save", f[0], "a login callback of another user carrying alice's ticket cookie with %s overwrote alice's stored session", f[0])
+				}
+				if w.redis.Exists("_oauth2_proxy-attacker-chosen-ticket-id") {
+					w.violate("C02", "altered-ticket-adopted-on-save", f[0], "a session was stored under a key chosen by an unsigned / foreign-signed cookie")
+				}
+			}
+			judge("restored", "after the altered-ticket logins", vfPairsHdr(alice.pairs), alice.exp)
+		}
 	}
 	w.nontriv = cs.Presented > 100
 	w.distKey = fmt.Sprintf("%s/%s/%s/%s/%d", cs.Store, cs.Name, cs.Secret, cs.Expire, cs.Size)
